@@ -405,7 +405,7 @@ theorem jw_dispatchOne_row (sp : Spec) (w : World) (c : Cmd) (h1 : isCompleted w
       simp only
       have hm := findByName_mem w _ r hr
       split
-      · refine ⟨{ r with state := .WAITING }, ?_, hm.2, waiting_incomplete⟩
+      · refine ⟨{ r with state := .WAITING, processed := false }, ?_, hm.2, waiting_incomplete⟩
         unfold setTask
         exact List.mem_map.mpr ⟨r, hm.1, by simp⟩
       · rename_i hs
@@ -834,14 +834,18 @@ theorem jw_step_simple (sp : Spec) (rk : String → Nat) (hsp : SpecOK sp rk) (w
               · intro hwf'
                 refine jw_simple sp w _ (.rpcStartTask t false) (jw_grow_eq _ _ rfl) hE hrm ?_ (h hwf')
                 intro j hj _; exact ⟨hj, fun hw => by simp [isWakeFor] at hw⟩
-              · intro hwf'
-                refine jw_simple sp w _ (.rpcStartTask t false)
-                  (jw_grow_setTask _ _ _ rfl running_incomplete) hE
-                  (fun x hx hne => List.mem_append_left _ (hrm x hx hne)) ?_ (h hwf')
-                intro j hj hs
-                rcases mem_setTask' _ _ _ hj with ⟨h3, _⟩ | h3
-                · exact ⟨h3, fun hw => by simp [isWakeFor] at hw⟩
-                · subst h3; cases hs
+              · split
+                · intro hwf'
+                  refine jw_simple sp w _ (.rpcStartTask t false) (jw_grow_eq _ _ rfl) hE hrm ?_ (h hwf')
+                  intro j hj _; exact ⟨hj, fun hw => by simp [isWakeFor] at hw⟩
+                · intro hwf'
+                  refine jw_simple sp w _ (.rpcStartTask t false)
+                    (jw_grow_setTask _ _ _ rfl running_incomplete) hE
+                    (fun x hx hne => List.mem_append_left _ (hrm x hx hne)) ?_ (h hwf')
+                  intro j hj hs
+                  rcases mem_setTask' _ _ _ hj with ⟨h3, _⟩ | h3
+                  · exact ⟨h3, fun hw => by simp [isWakeFor] at hw⟩
+                  · subst h3; cases hs
       | true =>
         simp only [step, if_true]
         split
